@@ -61,6 +61,7 @@ type WorldSpec struct {
 	NicErrEvery   int    `json:"nic_err_every,omitempty"`
 	OutStallEvery int    `json:"stdout_stall_every,omitempty"`
 	OutStallFor   string `json:"stdout_stall_for,omitempty"`
+	OutErrEvery   int    `json:"stdout_error_every,omitempty"`
 	CloseWakes    bool   `json:"close_wakes_reader"`
 	SockOpenErr   string `json:"sock_open_err,omitempty"`
 	SigintStep    int    `json:"sigint_step,omitempty"`
@@ -94,6 +95,7 @@ type CmdResult struct {
 	Dels     []simwire.Delivery
 	Socks    []*simwire.Sock
 	Out      []simio.WriteRec
+	FailedOut []simio.WriteRec
 	Errs     []simio.ErrRec
 	Stdout   []byte
 	Stderr   []byte
@@ -157,6 +159,7 @@ func runCmd(t *testing.T, c simrt.Chooser, w *WorldSpec, trace bool) *CmdResult 
 			iow.StdinTTY = true
 		}
 		iow.StallEvery, iow.StallFor = w.OutStallEvery, parseDur(w.OutStallFor)
+		iow.ErrEvery = w.OutErrEvery
 		host = simhost.Install(r)
 		for _, is := range w.Ifs {
 			ifc := simhost.Iface{Interface: net.Interface{Index: is.Index, Name: is.Name, MTU: 1500, Flags: net.FlagUp}}
@@ -229,6 +232,7 @@ func runCmd(t *testing.T, c simrt.Chooser, w *WorldSpec, trace bool) *CmdResult 
 	cr.Wire, cr.Dels = wire.Snapshot()
 	cr.Socks = wire.Socks
 	cr.Out, cr.Errs = iow.Snapshot()
+	cr.FailedOut = iow.FailedOut
 	cr.Stdout = iow.OutBytes()
 	cr.Stderr = iow.Stderr
 	cr.Opens = iow.Opens
